@@ -452,7 +452,10 @@ var nShapes int
 // checkTwins: a twin has the byte lengths of its letter in every component, and other bytes.
 func checkTwins() {
 	seen := map[string]bool{}
-	for i := nGeneral; i < nGeneral+nShapes; i++ {
+	for i := nGeneral; i < siteBase+nSites; i++ {
+		if i >= nGeneral+nShapes && i < siteBase {
+			continue // the shape twins
+		}
 		a, b := alphabet[i], alphabet[a2b(i)]
 		if seen[a.Name] {
 			panic("shapes: duplicate name " + a.Name)
